@@ -35,7 +35,7 @@ SplitStep ==
   /\ pc = "split" /\ sk <= Len(pts)
   /\ LET idx == pts[sk] IN
      /\ pieces' = Append(pieces, [a |-> prev, e |-> idx, b |-> idx,
-                                   pen |-> (IF HasDev("split_penalty_always") THEN 1 ELSE IF s[idx - 1] = HY THEN 0 ELSE 1),
+                                   pen |-> (IF HasDev("split_penalty_always") THEN 1 ELSE IF idx > 1 /\ s[idx - 1] = HY THEN 0 ELSE 1),
                                    w |-> DW(SubSeq(s, prev, idx - 1))])
      /\ prev' = idx /\ sk' = sk + 1
   /\ UNCHANGED <<s, pc, lim, splitter, inpen, i, off, width, st, out, pts>>
